@@ -122,6 +122,32 @@ example : ((fun (s : S) => (s.rs, retryCheck { retryOn := true, numRetries := 2,
       (List.replicate 12 .work ++ [.upReset 0 .StreamConnectionFailed] ++ List.replicate 5 .work ++
         [.upReset 1 .StreamConnectionFailed]))) = (some ⟨2, true⟩, true) := by decide
 
+/-! ### ==== proxy6: late response during the back-off (proxy core) — begin ==== -/
+
+/-- **late_response_keeps_ledger**: a response frame of an attempt that was given up for a retry, landing while the worker
+sleeps in `doRetry`'s back-off, leaves every counter and gauge as it was (it is ignored: C03 `late_response_ignored`); in
+particular it cannot make the request finish on the old answer with the next attempt still holding its requests slot and
+its active-gauge unit (what the real code did before the fix: ledger `…,up=1` on a finished exchange).  `ledger_exact`,
+`cur_nonneg`, `quiescent_zero`, `limit_trips` quantify over schedules containing the label. -/
+theorem late_response_keeps_ledger (c : Cfg) (ar aq : Nat) (l : List Label) (k : Nat) (d t : Bool) :
+    (reach c ar aq (l ++ [.lateResp k d t])).retries = (reach c ar aq l).retries ∧
+    (reach c ar aq (l ++ [.lateResp k d t])).requests = (reach c ar aq l).requests ∧
+    (reach c ar aq (l ++ [.lateResp k d t])).upActive = (reach c ar aq l).upActive ∧
+    (reach c ar aq (l ++ [.lateResp k d t])).downActive = (reach c ar aq l).downActive := by
+  have : reach c ar aq (l ++ [.lateResp k d t]) = reach c ar aq l := by
+    simp only [reach, run, List.foldl_append, List.foldl_cons, List.foldl_nil, step]
+    exact lateBackoff_noop c ar aq _ k d t (inv_run c ar aq l)
+  rw [this]; exact ⟨rfl, rfl, rfl, rfl⟩
+
+/-- per-try timeout, the late frame of attempt 0 in the back-off, attempt 1 never answers, the client goes away: the
+request ends with every slot and gauge given back (max_requests = 1: the slot of attempt 1 is returned by cleanStream) -/
+example : ((fun (s : S) => (s.cleaned, s.retries, s.requests, s.upActive, s.downActive))
+    (reach { retryOn := true, numRetries := 1, tryTimeout := true, maxRetries := 1, maxRequests := 1 } 0 0
+      (List.replicate 12 .work ++ [.perTryFire, .work, .lateResp 0 true false, .work, .work, .connClose, .work]))) =
+    (true, 0, 0, 0, 0) := by decide
+
+/-! ### ==== proxy6: late response during the back-off — end ==== -/
+
 /-!
 ## The TCP proxy (`pkg/filter/network/streamproxy`): the cluster's `Connections()` resource and the connection gauges
 
